@@ -197,6 +197,15 @@ func (m *maxInflightWrapper) SetLimit(acquireResult *AcquireResult) bool {
 
 	m.lock.Lock()
 	defer m.lock.Unlock()
+	if !result.Accept {
+		// a rejection carries the limit to fall back to: like an accepted one it stays within [reserve, max]
+		if result.Limit < m.reserve {
+			result.Limit = m.reserve
+		}
+		if result.Limit > m.max {
+			result.Limit = m.max
+		}
+	}
 	if result.Accept {
 		if atomic.LoadUint32(&m.serverUnavailable) == 1 {
 			atomic.StoreUint32(&m.serverUnavailable, 0)
